@@ -199,7 +199,12 @@ def process_scope(
             if pos >= end:
                 return pos
 
-            while pos < end and not isspace(buff[pos]) and buff[pos] != ";":
+            while (
+                pos < end
+                and not isspace(buff[pos])
+                and buff[pos] != ";"
+                and not (endchar == ")" and buff[pos] == ")")
+            ):
                 if buff[pos] == "'":
                     pos = walk_statement_no_parsing(buff, pos + 1, "'") + 1
                 elif buff[pos] in '"`':
@@ -214,7 +219,9 @@ def process_scope(
                     continue
                 else:
                     # blah=cah ; single word
-                    pos = walk_command_complex(buff, pos, " ", SPACE_PARSING)
+                    pos = walk_command_complex(
+                        buff, pos, ")" if endchar == ")" else " ", SPACE_PARSING
+                    )
 
     if out is not None:
         if window_end is None:
